@@ -664,3 +664,23 @@ func (m *Machine) selectStmt(fr *frame, instr *ssa.Select) value {
 }
 
 var schedTrace = os.Getenv("GOSYM_SCHEDTRACE") != ""
+
+// quiesce runs the other goroutines (in every order) until none of them is
+// runnable any more.
+func (s *scheduler) quiesce() {
+	m := s.m
+	cur := m.curG
+	for {
+		var others []*goroutine
+		for _, g := range s.runnable() {
+			if g != cur {
+				others = append(others, g)
+			}
+		}
+		if len(others) == 0 {
+			return
+		}
+		k := m.choice(len(others), "schedule while quiescing")
+		s.switchTo(cur, others[k])
+	}
+}
